@@ -48,6 +48,10 @@ FmtTexts == <<
   One(YCall("isInRange", <<Ip1, YCall("ip", <<YS(<<49, 46, 48, 46, 48, 46, 48, 47, 56>>)>>)>>)),
   One(<<"like", YS(<<47, 47, 32, 10, 34>>), <<47, 47, YWild, 42, 92>>>>),
   One(<<"or", <<"and", Pn, <<"or", Cs, Pn>>>>, <<"rel", "gt", YBin("mul", YBin("add", Pn, YN(1)), YN(2)), YN(3)>>>>),
+  \* blank and white-space-only lines inside string literals, entity ids and annotation values must survive
+  <<YPol("permit", << <<"note", <<"s", <<120, 10, 10, 121>>>>>> >>, <<"eq", YEnt("User", <<10, 10, 97>>)>>, AnyS, AnyS,
+         <<<<"when", YBin("eq", YS(<<97, 10, 10, 98, 10, 32, 9, 10, 47, 47, 32, 99, 10>>), YE("NS::Group", <<10, 32, 10>>))>>,
+           <<"unless", <<"like", Cs, <<10, 10, YWild, 10>>>>>>>>)>>,
   <<YPol("permit", <<>>, AnyS, AnyS, AnyS, <<>>), YPol("forbid", << <<"id", <<"s", <<120>>>>>> >>, <<"is", "User">>, AnyS, AnyS, <<<<"when", Pn>>>>)>>,
   \* ---- long: line breaking is forced at every width of the grid
   One(LongChain("and")),
@@ -65,8 +69,9 @@ FmtTexts == <<
     YPol("permit", <<>>, <<"inslot">>, AnyS, <<"eqslot">>, <<>>)>>
 >>
 NT == Len(FmtTexts)
-StyleOf(t) == SxAllStyles[(t % 4) + 1]
-ToksOf(t) == SxSetToks(FmtTexts[t], StyleOf(t))
+\* quick: each text in one style (rotating); thorough: every text in all four styles
+StyleIdx(t) == (t % 4) + 1
+ToksIn(t, si) == SxSetToks(FmtTexts[t], SxAllStyles[si])
 
 \* ------------------------------------------------------------------ comments
 CText(i) == " c" \o ToString(i)
@@ -84,16 +89,16 @@ FourCfgs(k) == <<Grid[(k % 20) + 1], Grid[((k + 5) % 20) + 1], Grid[((k + 10) % 
 
 \* ------------------------------------------------------------------ placements
 \* a case state: <<text index, places, cfgs>> (places: tuple of <<boundary, mode, items>>)
-Small(t) == Len(ToksOf(t)) <= (IF Quick THEN 20 ELSE 40)
-PlacementsOf(fam, t) ==
-  LET n == Len(ToksOf(t))
+Small(t, si) == Len(ToksIn(t, si)) <= (IF Quick THEN 20 ELSE 40)
+PlacementsOf(fam, t, si) ==
+  LET n == Len(ToksIn(t, si))
   IN CASE fam = "none" -> {<<t, <<>>, AllCfgs>>}
-       [] fam = "one" -> {<<t, << <<i, m, <<Cm(CText(i))>>>> >>, TwoCfgs(i + t)>> : i \in 0..n, m \in {"own", "trail"}}
+       [] fam = "one" -> {<<t, << <<i, m, <<Cm(CText(i))>>>> >>, IF Quick THEN TwoCfgs(i + t) ELSE AllCfgs>> : i \in 0..n, m \in {"own", "trail"}}
        [] fam = "all" -> {<<t, [k \in 1..(n + 1) |-> <<k - 1, m, <<Cm(CText(k - 1))>>>>], AllCfgs>> : m \in {"own", "trail"}}
                          \cup {<<t, [k \in 1..(n + 1) |-> <<k - 1, ModeOf(k), IF k % 3 = 0 THEN <<Cm(CText(k)), Bl, Cm(CText(k + 100))>>
                                                                              ELSE IF k % 3 = 1 THEN <<Bl, Cm(CText(k))>> ELSE <<Cm(CText(k)), Bl, Bl>>>>], AllCfgs>>}
        [] fam = "two" ->
-            IF Small(t)
+            IF Small(t, si)
             THEN {<<t, << <<q[1], ModeOf(q[1]), <<Cm(CText(q[1]))>>>>, <<q[2], ModeOf(q[1] + q[2]), <<Cm(CText(q[2]))>>>> >>, TwoCfgs(q[1] * 31 + q[2])>> :
                     q \in {r \in (0..n) \X (0..n) : r[1] < r[2]}}
             ELSE {<<t, << <<q[1], ModeOf(q[1]), <<Cm(CText(q[1]))>>>>, <<q[2], "trail", <<Cm(CText(q[2]))>>>> >>, TwoCfgs(q[1] + q[2])>> :
@@ -119,21 +124,22 @@ NearTrailingComma(ts, places) ==
   \E x \in 1..Len(places) : HasComment(places[x]) /\ \E k \in 1..Len(ts) : TrailingCommaAt(ts, k) /\ places[x][1] \in {k - 1, k, k + 1}
 
 Fams == {"none", "one", "all", "two", "special", "blank", "eof"}
-FInit == coord \in {<<f, t>> : f \in Fams, t \in 1..NT} /\ done = FALSE /\ c = <<>>
+FInit == /\ coord \in {k \in Fams \X (1..NT) \X (1..4) : Quick => k[3] = StyleIdx(k[2])}
+         /\ done = FALSE /\ c = <<>>
 FNext == /\ ~done
          /\ done' = TRUE
-         /\ c' \in PlacementsOf(coord[1], coord[2])
+         /\ c' \in PlacementsOf(coord[1], coord[2], coord[3])
          /\ UNCHANGED coord
 
 \* ---------------------------------------------------------------- binding M
 FSane ==
-  done => /\ PlacesOk(c[2], Len(ToksOf(c[1])))
-          /\ Len(CommentsOf(c[2])) <= 3 * (Len(ToksOf(c[1])) + 1)
-          /\ SxDepthOk(ToksOf(c[1]), 1, 0)
+  done => /\ PlacesOk(c[2], Len(ToksIn(c[1], coord[3])))
+          /\ Len(CommentsOf(c[2])) <= 3 * (Len(ToksIn(c[1], coord[3])) + 1)
+          /\ SxDepthOk(ToksIn(c[1], coord[3]), 1, 0)
           /\ Len(c[3]) >= 1
 
 \* ---------------------------------------------------------------- binding G
-FDump == PrintT("CASE " \o ToJson([kind |-> "fmt", coord |-> coord, pols |-> FmtTexts[c'[1]], toks |-> ToksOf(c'[1]),
-                                   style |-> StyleOf(c'[1]), tc |-> NearTrailingComma(ToksOf(c'[1]), c'[2]),
+FDump == PrintT("CASE " \o ToJson([kind |-> "fmt", coord |-> coord, pols |-> FmtTexts[c'[1]], toks |-> ToksIn(c'[1], coord[3]),
+                                   style |-> SxAllStyles[coord[3]], tc |-> NearTrailingComma(ToksIn(c'[1], coord[3]), c'[2]),
                                    places |-> c'[2], cfgs |-> c'[3]]))
 ==============================================================================
